@@ -62,16 +62,17 @@ func mkBlock(f blockForm, idx int) ([]byte, int, error) {
 }
 
 type stream struct {
-	name string
-	data []byte
-	offs []int // start offset of block k; offs[n] = len(data)
-	hdr  []int // header (T+L) length of block k
+	name  string
+	forms []blockForm
+	data  []byte
+	offs  []int // start offset of block k; offs[n] = len(data)
+	hdr   []int // header (T+L) length of block k
 }
 
 func (s *stream) blocks() int { return len(s.offs) - 1 }
 
 func mkStream(name string, forms []blockForm) (*stream, error) {
-	s := &stream{name: name}
+	s := &stream{name: name, forms: forms}
 	for i, f := range forms {
 		b, h, err := mkBlock(f, i)
 		if err != nil {
